@@ -53,6 +53,7 @@ def build_module(defined_table):
     f_k = m.func([], [I32], W.ins("i32.const", 1111))
     m.func([I32, I32], [I32], L(0) + L(1) + W.ins("call_indirect", t0, 0) + W.ins("i32.xor"), export="ind0")
     m.elem(W.ins("i32.const", 7), [f_k])
+    m.elem(W.ins("i32.const", 4), [h0])                   # an IMPORTED function in the table (same type as f_k: reached through ind0)
     m.elem(W.ins("global.get", gbase), [f_sub, f_add])
     m.elem(W.ins("i32.const", 5), [f_xor, f_sub])
     return m
@@ -150,10 +151,14 @@ void h_ind0(void) { ND(U32, below); ND(U32, base); U32 r; ASSUME(base <= 2); set
     r = MODNAME_ind0(&inst, below, 7);
     OBL(r == (below ^ 1111u), "call_indirect of a zero-parameter function: its result replaces the table index (slot h-1) and the operand below survives");
     CANARY("ind0"); }
+void h_ind_import(void) { ND(U32, below); ND(U32, base); U32 r; ASSUME(base <= 2); setup(base);
+    r = MODNAME_ind0(&inst, below, 4);
+    OBL(g_h0_calls == 1 && g_h_inst == (void*)&inst && r == (below ^ g_h0_ret[0]), "call_indirect to an IMPORTED function placed in the table by an element segment: the host function is called with the instance, its result delivered");
+    CANARY("ind_import"); }
 void h_elem(void) { ND(U32, base); ND(U32, k); ASSUME(base <= 2 && k < 8); setup(base);
-    OBL(TAB.data[base] != (wasmFunc)sentinel && TAB.data[base + 1] != (wasmFunc)sentinel && TAB.data[5] != (wasmFunc)sentinel && TAB.data[6] != (wasmFunc)sentinel && TAB.data[7] != (wasmFunc)sentinel,
+    OBL(TAB.data[base] != (wasmFunc)sentinel && TAB.data[base + 1] != (wasmFunc)sentinel && TAB.data[5] != (wasmFunc)sentinel && TAB.data[6] != (wasmFunc)sentinel && TAB.data[7] != (wasmFunc)sentinel && TAB.data[4] != (wasmFunc)sentinel,
         "element segments: every listed slot of the designated (defined or imported) table is initialised, with a constant or an imported-global offset");
-    OBL(k == base || k == base + 1 || k == 5 || k == 6 || k == 7 || TAB.data[k] == (wasmFunc)sentinel, "element segments: no other table slot is written");
+    OBL(k == base || k == base + 1 || k == 5 || k == 6 || k == 7 || k == 4 || TAB.data[k] == (wasmFunc)sentinel, "element segments: no other table slot is written");
     OBL(TAB.data[base] == TAB.data[6], "element segments: the same function index denotes the same function in every segment");
     CANARY("elem"); }
 '''
@@ -163,7 +168,7 @@ HARNESS_DEFINED = HARNESS
 
 def make_jobs(ctx):
     jobs = []
-    for tag, defined, opts in (("imp", False, ()), ("def", True, ()), ("imp-p", False, ("-p",)), ("def-p", True, ("-p",))):
+    for tag, defined, opts in (("imp", False, ()), ("def", True, ()), ("imp-p", False, ("-p",)), ("def-p", True, ("-p",)), ("imp-m", False, ("-m",))):
         modname = "c04%s" % tag.replace("-", "")
         m = build_module(defined)
         wasm_bytes = m.encode()
@@ -173,6 +178,9 @@ def make_jobs(ctx):
             jobs.append(rejected_job("G.%s.translate" % tag, modname, r, wasm_bytes.hex()))
             continue
         text = HARNESS.replace("MODNAME", modname)
+        if "-m" in opts:      # several modules in one program: imported functions are referred to as <module>_<import>, in calls AND in element segments
+            for h in ("host3", "host0", "hostv"):        # the harness DEFINES the host functions under the prefixed names (no renaming macro: the generated code must use them itself)
+                text = text.replace(" env__%s(void* inst" % h, " %s_env__%s(void* inst" % (modname, h))
         if defined:
             # a defined table is allocated by the instance itself: sentinel filling happens after instantiation is impossible -> compare against NULL instead
             text = text.replace("#include \"vh.h\"", "#define DEFINED_TABLE 1\n#include \"vh.h\"")
@@ -184,7 +192,7 @@ def make_jobs(ctx):
                              ("h_callmix", "call (direct)", {}), ("h_callmixperm", "call (direct)", {}),
                              ("h_tri", "call (recursive)", dict(bounded="recursion depth <= 5 (n <= 4)")),
                              ("h_evenodd", "call (mutually recursive)", dict(bounded="recursion depth <= 5 (n <= 4)")),
-                             ("h_ind", "call_indirect", {}), ("h_indbelow", "call_indirect", {}), ("h_ind0", "call_indirect", {}), ("h_elem", "element segments / InitTables", {})):
+                             ("h_ind", "call_indirect", {}), ("h_indbelow", "call_indirect", {}), ("h_ind0", "call_indirect", {}), ("h_ind_import", "call_indirect (imported function in the table)", {}), ("h_elem", "element segments / InitTables", {})):
             jobs.append(Job("G.%s.%s" % (tag, h[2:]), hp, entry=h, includes=[d, os.path.join(ctx.repo, "w2c2")],
                             flags=["--unwind", "10", "--unwinding-assertions"], funcs=["generated:%s %s" % (modname, fn)],
                             replay=lambda c, j, p, v: native_replay_generic(c, j, p, v),
